@@ -95,12 +95,15 @@ class Service:
     def reload(self):
         """(re)load the stored config and state of the service"""
         if FileManager.check_sid_folder_exist(self.sid):
-            self.config = FileManager.read_service_config(self.sid)
             self.service_meta = FileManager.read_service_meta(self.sid)
-            self._load_sse_module()
-            self._load_config_object()
         else:  # NEW Service
             self.service_meta = {"state": SERVICE_STATE.NOT_EXISTS}
+
+        if self.get_current_service_state() != SERVICE_STATE.NOT_EXISTS:
+            # the config file is complete once the state says that it has been uploaded
+            self.config = FileManager.read_service_config(self.sid)
+            self._load_sse_module()
+            self._load_config_object()
 
     @property
     def short_sid(self) -> str:
